@@ -91,6 +91,13 @@ def mask_times(img):
     return hashlib.blake2b(img, digest_size=16).digest()
 
 
+def crash_violation(info):
+    """An edit that the reference model accepts raised something other than the invalid-input error."""
+    t, site = explore.exc_site(info['exc'])
+    return ('an edit the reference model accepts is carried out, or refused with the invalid-input error', '%s: %s@%s' % (info['op'][0], t, site),
+            '%s raised %s: %s' % (info['op'], t, str(info['exc'])[:200]))
+
+
 def make_visit(oracles, cut_on_violation=True):
     def visit(cfg, steps, model, res):
         case = {'cfg': cfg, 'steps': steps}
@@ -99,6 +106,8 @@ def make_visit(oracles, cut_on_violation=True):
             res.violation(v['clause'], v['cls'], v['msg'], case)
         if status == 'ok':
             res.sample(case)
+        if status == 'crash':
+            res.violation(*crash_violation(info), case=case)
         if status in ('refused', 'crash'):
             return False
         if status == 'violation' and cut_on_violation:
@@ -151,8 +160,9 @@ def make_reopen_tasks(cfgs, depth_after, profile='reopen'):
 def make_chain_tasks(cfgs, tier):
     tasks = []
     for cfg in cfgs:
-        for name, chain in ops.chains_for(cfg, tier):
-            tasks.append({'cfg': cfg, 'chain': name, 'ops': chain, 'profile': 'chain', 'depth': len(chain)})
+        for item in ops.chains_for(cfg, tier):
+            name, chain = item[0], item[1]
+            tasks.append({'cfg': cfg, 'chain': name, 'ops': chain, 'profile': 'chain', 'depth': len(chain), 'start': item[2] if len(item) > 2 else 1})
     return tasks
 
 
@@ -161,13 +171,15 @@ def run_chain(task, oracles, res):
     chain = task['ops']
     res.add('chains', '%s/%s' % (cfg_name(cfg), task['chain']))
     bad = 0
-    for i in range(1, len(chain) + 1):
+    for i in range(task.get('start', 1), len(chain) + 1):
         steps = [[op] for op in chain[:i]]
         case = {'cfg': cfg, 'steps': steps}
         status, viols, info = evaluate(case, oracles, res, count=True)
         res.count('chain_prefixes')
         for v in viols:
             res.violation(v['clause'], v['cls'], v['msg'], case)
+        if status == 'crash':
+            res.violation(*crash_violation(info), case=case)
         if status in ('refused', 'crash'):
             res.count('chain_cut')
             res.note('chain_cut_at', '%s/%s op %d %s: %s' % (cfg_name(cfg), task['chain'], i, info['op'][0], str(info['exc'])[:60]))
